@@ -43,11 +43,12 @@ where
     };
 
     // headers
+    let mut dropped = 0;
     loop {
         buffers::read_line_strict(reader, &mut line, MAX_LINE_LEN)?;
         if line.is_empty() {
             break;
-        } else if headers.len() == max_headers {
+        } else if headers.len() + dropped == max_headers {
             return Err(InvalidResponseKind::Header.into());
         }
 
@@ -65,6 +66,7 @@ where
             Ok(val) => val,
             Err(err) => {
                 warn!("Dropped invalid response header: {}", err);
+                dropped += 1;
                 continue;
             }
         };
